@@ -355,6 +355,22 @@ def observe(ctx, d, m, cls, kind, cid, case, climate, snap=None, prev=None):
         warnings.simplefilter("ignore")
         okp, pi = ctx.call(d.phase_indices)
         okm, pm = ctx.call(d.phase_mean)
+        rq = ctx.rng("shuf", cid, ctx.counters.get("states_observed", 0))
+        if rq.random() < 0.3:
+            # a derived series that is random by design, requested before
+            # and after the anomalies: each column is a permutation of the
+            # anomaly column, and the anomalies themselves stay what they are
+            np.random.seed(int(rq.integers(1 << 30)))
+            oks, sh = ctx.call(d.shuffled_anomaly)
+            oka, an = ctx.call(d.anomaly)
+            ctx.count("shuffled_anomaly_queried")
+            if oks and oka and np.shape(sh) == np.shape(an) and not \
+                    np.array_equal(np.sort(np.asarray(sh, float), axis=0),
+                                   np.sort(np.asarray(an, float), axis=0)):
+                ctx.violation(sig("shuffled_anomaly",
+                                  "not-a-column-permutation-of-anomaly"),
+                              {**case}, cid)
+            ctx.call(d.shuffled_anomaly)
         oka, an = ctx.call(d.anomaly)
     ctx.evals(3)
     # phase_indices
@@ -439,7 +455,10 @@ def observe(ctx, d, m, cls, kind, cid, case, climate, snap=None, prev=None):
     # selected phases / months
     if an_ok and pm_ok and full_phases:
         r = ctx.rng("sel", cid, ctx.counters.get("states_observed", 0))
+        # (phases / months in the order a caller lists them, e.g. Dec-Jan-
+        #  Feb = [11, 0, 1]: the selection is chronological whatever the order)
         sel = sorted(set(int(v) for v in r.integers(0, cycle, 3)))
+        sel = [sel[i] for i in r.permutation(len(sel))]
         wsel = sorted(int(v) for v in wpi[sel, :].ravel())
         ok, got = ctx.call(d.indices_selected_phases, sel)
         ctx.evals()
@@ -451,6 +470,7 @@ def observe(ctx, d, m, cls, kind, cid, case, climate, snap=None, prev=None):
                            "exc": None if ok else repr(got)}, cid)
         if cycle == 12:
             months = sorted(set(int(v) for v in r.integers(0, 12, 4)))
+            months = [months[i] for i in r.permutation(len(months))]
             widx = sorted(int(v) for v in wpi[months, :].ravel())
             ref_an = view if flag else view - wpm[np.arange(Tw) % 12, :]
             want = ref_an[widx, :]
@@ -541,6 +561,7 @@ def run_history(ctx, Data, ClimateData, GeoGrid, cid, r, climate):
     if ctor_w is None:
         snap0 = s
     prev_view = m.view().copy()
+    wdict = {}
     L = int(r.integers(1, 9 if ctx.thorough else 5))
     for step in range(L):
         u = r.random()
@@ -574,6 +595,13 @@ def run_history(ctx, Data, ClimateData, GeoGrid, cid, r, climate):
             if not tm.any() or not sm.any():
                 ctx.count("empty_selection_skipped")
                 continue
+            if r.random() < 0.4:
+                # the caller keeps one window dictionary and edits it in
+                # place between calls
+                wdict.clear()
+                wdict.update(w)
+                w = wdict
+                ctx.count("window_dict_reused")
             ok, e = ctx.call(d.set_window, w)
             ctx.evals()
             case["history"].append(["set_window",
